@@ -257,8 +257,23 @@ let gen_scoping ~(emit : Sexp.t -> unit) : unit =
             [ ""; "# c \xc3\xa9\n"; "w\xc3\xa9 = 1\n"; "z0 = 1; " ])
         [ "x"; "\xc3\xa9t\xc3\xa9"; "_v1" ]) scoping_templates
 
+(* (f) the definition-order diagnostic ("The definition of X references Y ... not available in time"): it must mark the
+   right-hand side of the definition it names, also when the reference goes through functions defined in between *)
+let order_templates : (string * string) list =
+  [ ("x = y + 1; y = 2 + 1; x", "y + 1");
+    ("total = scale 10\nscale = (x : int) => x * factor\nfactor = 2 + 3\ntotal", "scale 10");
+    ("a = f 1; f = (n : int) => g n; g = (n : int) => n + c; c = 1 + 1; a", "f 1");
+    ("result = if ready 0\n  then unit\n  else 0\nready = (n : int) =>\n  n < limit\nlimit = 3 * 3\nunit = 1\nresult", "if ready 0\n  then unit\n  else 0");
+    ("p = 1 + 1; q = p + r; r = p * 2; q", "p + r");
+    ("f = (n : int) => n; w = (u = v + f 1; v = 2 * 2; u); w", "v + f 1") ]
+
+let gen_order ~(emit : Sexp.t -> unit) : unit =
+  List.iter (fun (src, marked) ->
+      List.iter (fun prefix -> emit (L [ A "diag"; A (hex (prefix ^ src)); A (hex marked); A "order" ]))
+        [ ""; "# c \xc3\xa9\n"; "z0 = 1\n"; "z0 = 1; " ]) order_templates
+
 let gen ~(tier : string) ~(seed : int) ~(emit : Sexp.t -> unit) : unit =
-  gen_main ~tier ~seed ~emit; gen_typing ~emit; gen_scoping ~emit
+  gen_main ~tier ~seed ~emit; gen_typing ~emit; gen_scoping ~emit; gen_order ~emit
 
 (* ------------------------------------------------------------------------------ checking *)
 let has (m : string) (p : string) = (try ignore (Str.search_forward (Str.regexp_string p) m 0); true with Not_found -> false)
@@ -300,6 +315,7 @@ let check (case : Sexp.t) (res : Sexp.t) : [ `Ok | `Mismatch of string | `Proper
   | L (A "diag" :: h :: expected), L [ A "diag"; A stage; toks; parsed; L (A "msgs" :: msgs); _ ] ->
     let src = unhex h in
     let scope_expected = (match expected with [ e; A "scope" ] -> Some (unhex e) | _ -> None) in
+    let order_expected = (match expected with [ e; A "order" ] -> Some (unhex e) | _ -> None) in
     let expected = (match expected with [ e ] -> Some (unhex e) | _ -> None) in
     let msgs = List.map unhex msgs in
     let node_result =
@@ -371,6 +387,21 @@ let check (case : Sexp.t) (res : Sexp.t) : [ `Ok | `Mismatch of string | `Proper
              if List.mem want named then None
              else Some (Printf.sprintf "the scoping fault at `%s` of this minimal program is not reported (stage %s; diagnostics name %s)" want stage
                           (String.concat ", " (List.map (fun x -> "`" ^ x ^ "`") named)))
+           | _ -> problem) in
+       (* minimal programs with a definition-order fault: a diagnostic of the parse stage must mark the right-hand side
+          of the offending definition *)
+       let problem = (match problem, order_expected with
+           | None, Some want ->
+             let marks = List.filter_map (fun m ->
+                 match Str.bounded_split (Str.regexp_string "\n\n") m 2 with
+                 | [ _; listing ] -> (match marked_range src listing with
+                     | Stdlib.Ok (s, e) -> (try Some (String.sub src s (e - s)) with _ -> None)
+                     | Stdlib.Error _ -> None)
+                 | _ -> None) msgs in
+             if stage <> "parse" then Some (Printf.sprintf "the definition-order fault at `%s` is not reported by parse() (stage %s)" want stage)
+             else if List.mem want marks then None
+             else Some (Printf.sprintf "the definition-order diagnostic must mark `%s`; the diagnostics mark %s" want
+                          (String.concat ", " (List.map (fun x -> "`" ^ x ^ "`") marks)))
            | _ -> problem) in
        (match problem with
         | Some p -> (`Property p, true)
